@@ -79,7 +79,10 @@ fn merkle_part<H: Hasher>(name: &str, out: &mut BTreeMap<String, String>, sizes:
                 b.extend(d.to_bytes());
             }
         }
-        let bp = tree.prove_batch(&[0, 1, n / 3, n - 1]).unwrap();
+        let mut positions = vec![0, 1, n / 3, n - 1];
+        positions.sort_unstable();
+        positions.dedup();
+        let bp = tree.prove_batch(&positions).unwrap();
         b.extend(bp.serialize_nodes());
         out.insert(format!("merkle/{name}/{n}"), dig(&b));
     }
